@@ -314,12 +314,19 @@ class C08(Spec):
                   "handlers_codec_roundtrip_pure", "handlers_pure_count", "timeCodec_roundtrip_dec", "timeCodec_roundtrip_frac", "C08_partial")
     ) + ("Earverif.TimeFormat.dvd_pow_placesBound",) + tuple(
         "Earverif.XmlCodec." + t
-        for t in ("stages_roundtrip", "codec_roundtrip", "codec_roundtrip_pure", "toXml_decl_congr",
+        for t in ("stages_roundtrip", "codec_roundtrip", "codec_roundtrip_full", "codec_roundtrip_pure",
+                  "toXml_decl_congr",
                   "keysOK_ofRows", "fieldOK_ofRow", "intCodec_roundtrip", "boolCodec_roundtrip", "floatCodec_roundtrip",
                   "stringCodec_roundtrip", "trackUIDRefCodec_roundtrip_str", "enumCodecs_roundtrip")) + tuple(
         "Earverif.XmlCustom." + t
         for t in ("frequency_roundtrip", "jumpPosition_roundtrip", "jumpPosition_excluded",
-                  "speakerPosition_roundtrip", "speakerPosition_bad_lock", "dumpBound_steps"))
+                  "speakerPosition_roundtrip", "speakerPosition_bad_lock", "dumpBound_steps",
+                  "objectPosition_roundtrip", "objectPosition_out_of_range", "gainElement_roundtrip",
+                  "optionalGain_roundtrip", "gainAttribute_roundtrip", "gain_dB_versions", "channelLock_roundtrip",
+                  "divergence_roundtrip", "zoneExclusion_roundtrip")) + tuple(
+        "Earverif.XmlBlocks." + t
+        for t in ("objectsRows_eq", "objectsProps_eq", "objPs_keys", "objPs_fields", "xpath_position",
+                  "objectsBlock_roundtrip"))
     trusted_base = (
         "models Earverif/Model/TimeFormat.lean, GenIds.lean, Chna.lean are hand transliterations of "
         "time_format.parse_time/unparse_time, generate_ids.generate_ids, AudioID.asByteArray and the row decoding in "
@@ -384,6 +391,7 @@ class C08(Spec):
         t3 = time.time()
         self._corr_codec(ctx, drv, rng, 40 if q else 600, 12 if q else 150)
         self._corr_handlers(ctx, drv, rng, 300 if q else 6000)
+        self._corr_handlers2(ctx, drv, rng, 150 if q else 3000)
         ctx.notes.append("correspondence seconds: times %.1f, ids %.1f, chna %.1f, combinators %.1f (started %.1f s "
                          "after check start)" % (t1 - t0, t2 - t1, t3 - t2, time.time() - t3, t0 - ctx.t0))
 
@@ -702,6 +710,54 @@ class C08(Spec):
             ctx.case(("hp", which, repr(kids)), want != "E")
             if m != want:
                 ctx.disagree("%s parse vs Earverif.XmlCustom" % which, repr(kids)[:600], m, want)
+            else:
+                ctx.validated()
+
+    def _corr_handlers2(self, ctx, drv, rng, n):
+        """round 3: Objects position, gain element / attribute, channelLock, objectDivergence, zoneExclusion"""
+        vals = codec.gen_values2(rng, n)
+        outs = drv.run([codec.value2_line(w, v) for w, v in vals])
+        for (which, value), m in zip(vals, outs):
+            try:
+                want = codec.py2_to_xml(which, value)
+            except Exception as e:
+                want = "raises %s" % type(e).__name__
+            try:
+                got, _ = codec.parse_tree_tokens(m.split())
+            except Exception:
+                got = m
+            ctx.count("corr:handler:%s:to_xml" % which)
+            ctx.case(("hx", which, repr(value)), True, sample={"handler": which, "value": repr(value), "xml": repr(want)[:300]})
+            if got != want:
+                ctx.disagree("%s to_xml vs Earverif.XmlCustom" % which, repr(value), repr(got)[:500], repr(want)[:500])
+                continue
+            ctx.validated()
+            exp = codec.expected2(which, value)
+            if exp is None:
+                back = codec.py2_parse("opos", want)
+                ctx.count("excluded-point:handler:objects-invalid-screenEdgeLock=" + ("refused" if back == "E" else "accepted"))
+                continue
+            back = codec.py2_parse(exp[0], want)
+            if back != exp[1]:
+                ctx.hit("hand-written handler does not round-trip", {"handler": which, "value": repr(value)},
+                        {"written": repr(want)[:600], "read_back": repr(back), "expected": repr(exp[1])},
+                        ["c08-handler-roundtrip-" + which])
+        trees = codec.gen_trees2(rng, n)
+        lines = []
+        for which, t in trees:
+            ns, name, attrs, text, kids = t
+            t2 = (None, name, attrs, text, codec.visiting_order(kids) if which == "opos" else kids)
+            lines.append("hp %s %s" % (which, " ".join(codec.tree_tokens(t2))))
+        outs = drv.run(lines)
+        for (which, t), m in zip(trees, outs):
+            want = codec.py2_parse(which, t)
+            ok = codec.gain_matches(m, want) if which.startswith("g") else (m == want)
+            ctx.count("corr:handler:%s:parse:%s" % (which, "rejected" if want == "E" else "value"))
+            if which.startswith("gain") and m.startswith("D "):
+                ctx.count("corr:handler:gain:dB-unit")
+            ctx.case(("hp", which, repr(t[4]) + repr(t[2])), want != "E")
+            if not ok:
+                ctx.disagree("%s parse vs Earverif.XmlCustom" % which, repr(t)[:600], m, repr(want))
             else:
                 ctx.validated()
 
